@@ -64,8 +64,8 @@ func verifCheckFrame(t *refTerm, vx *Vaxis, tag string) {
 			term := t.grid[row][col]
 			definedOK = definedOK && term.defined
 			cellsOK = cellsOK && term.g == g && term.w == w && verifStyleEq(term.st, verifExpectStyle(vx, app.Style))
-			if w == 2 && col+1 < t.w {
-				definedOK = definedOK && t.grid[row][col+1].defined && t.grid[row][col+1].cont
+			for k := 1; k < w && col+k < t.w; k++ {
+				definedOK = definedOK && t.grid[row][col+k].defined && t.grid[row][col+k].cont
 			}
 			col += w
 		}
@@ -109,13 +109,25 @@ func verifSymCapsRender(vx *Vaxis) {
 	vx.caps.unicodeCore = zzverif.Bool("cap.unicodeCore")
 }
 
+// verifAlphabetLimit, when non-zero, restricts verifDrawFrame to the first entries of the
+// alphabet plus the explicit empty cell (harnesses whose subject is not the glyph classes).
+var verifAlphabetLimit int
+
 func verifDrawFrame(vx *Vaxis, tag string, cols, rows int, styleOf func(tag string, i int) Style) {
 	win := vx.Window()
 	win.Clear()
 	i := 0
 	for r := 0; r < rows; r++ {
 		for c := 0; c < cols; c++ {
-			sel := zzverif.Choose(tag+".cell", len(verifAlphabet))
+			sel := 0
+			if verifAlphabetLimit > 0 {
+				sel = zzverif.Choose(tag+".cell", verifAlphabetLimit+1)
+				if sel == verifAlphabetLimit {
+					sel = len(verifAlphabet) - 1
+				}
+			} else {
+				sel = zzverif.Choose(tag+".cell", len(verifAlphabet))
+			}
 			gl := verifAlphabet[sel]
 			// a wide glyph in the last column cannot be displayed; covered cells are skipped
 			zzverif.Assume(!(rtWidth(gl.g) == 2 && c == cols-1))
@@ -168,6 +180,73 @@ func VerifC01Layout() {
 	verifDrawFrame(vx, "f2", cols, rows, plain)
 	verifFlush(vx, con, t, zzverif.Bool("refresh2"))
 	verifCheckFrame(t, vx, "frame2")
+	zzverif.Reach("end")
+}
+
+// VerifC01Resize: a frame on a 2x1 screen, then the terminal is resized (to 1x1, 3x1 or 2x2)
+// and reports it; the Render that notices the resize draws nothing (it resizes the buffers
+// and posts the Resize event); the application redraws at the new size and the next Render
+// brings the resized terminal - whose content after a resize is unknown - to exactly the
+// application's screen.
+func VerifC01Resize() {
+	verifAlphabetLimit = 4 // cleared, narrow explicit, narrow auto-width, wide explicit (+ empty cell)
+	vx, con := verifRenderVaxis(2, 1)
+	vx.queue = make(chan Event, 8)
+	vx.caps.rgb, vx.caps.styledUnderlines = true, true
+	vx.caps.synchronizedUpdate = zzverif.Bool("cap.sync")
+	t := newRefTerm(2, 1)
+	t.visible = 0
+	plain := func(string, int) Style { return Style{} }
+	verifDrawFrame(vx, "f1", 2, 1, plain)
+	verifFlush(vx, con, t, true)
+	verifCheckFrame(t, vx, "frame1")
+	ns := [][2]int{{1, 1}, {3, 1}, {2, 2}}[zzverif.Choose("newsize", 3)]
+	con.w, con.h = ns[0], ns[1]
+	vx.Resize()
+	vx.Render()
+	zzverif.Assert(len(con.take()) == 0, "render-that-notices-the-resize-draws-nothing")
+	gotEvent := false
+	for len(vx.queue) > 0 {
+		if r, ok := (<-vx.queue).(Resize); ok {
+			gotEvent = r.Cols == ns[0] && r.Rows == ns[1]
+		}
+	}
+	zzverif.Assert(gotEvent, "resize-event-carries-the-new-size")
+	// the resized terminal: same modes, pen and cursor visibility, unknown content
+	t2 := newRefTerm(ns[0], ns[1])
+	t2.visible, t2.pen, t2.modes, t2.syncDepth, t2.shape = t.visible, t.pen, t.modes, t.syncDepth, t.shape
+	verifDrawFrame(vx, "f2", ns[0], ns[1], plain)
+	verifFlush(vx, con, t2, false)
+	verifCheckFrame(t2, vx, "frame-after-resize")
+	zzverif.Reach("end")
+}
+
+// VerifC01VeryWide: glyphs wider than two cells (an explicit width of 3, as OSC 66 allows) on
+// a 3x1 screen over three frames: each frame is the width-3 glyph or three cells each cleared
+// or narrow; the first frame is a Refresh, the others plain Renders: after every frame the
+// reference terminal shows the application's screen without relying on what a terminal leaves
+// of an overwritten wide glyph.
+func VerifC01VeryWide() {
+	vx, con := verifRenderVaxis(3, 1)
+	vx.caps.rgb, vx.caps.styledUnderlines, vx.caps.synchronizedUpdate = true, true, true
+	vx.caps.explicitWidth, vx.caps.unicodeCore = true, true
+	t := newRefTerm(3, 1)
+	t.visible = 0
+	for f := 0; f < 3; f++ {
+		win := vx.Window()
+		win.Clear()
+		if zzverif.Bool("veryWide") {
+			win.SetCell(0, 0, Cell{Character: Character{Grapheme: "x", Width: 3}})
+		} else {
+			for c := 0; c < 3; c++ {
+				if zzverif.Bool("narrow") {
+					win.SetCell(c, 0, Cell{Character: Character{Grapheme: "a", Width: 1}})
+				}
+			}
+		}
+		verifFlush(vx, con, t, f == 0)
+		verifCheckFrame(t, vx, "frame")
+	}
 	zzverif.Reach("end")
 }
 
